@@ -575,6 +575,11 @@ func c16GenRule(rng *rand.Rand, w *c16World) c16Rule {
 	if rng.IntN(400) == 0 {
 		ps = c16PortSpec{c16PortRange, 1 + rng.IntN(2), []int{1024, 4096, verifkit.Scale(4097, 65535)}[rng.IntN(3)]}
 	}
+	if rng.IntN(3000) == 0 {
+		// the whole port space and one short of it at either end (must stay different from `any`: port 0 and non-first
+		// fragments are outside every range)
+		ps = c16Pick(rng, []c16PortSpec{{c16PortRange, 1, 65535}, {c16PortRange, 2, 65535}, {c16PortRange, 1, 65534}})
+	}
 	r.PortKind, r.Lo, r.Hi = ps.kind, ps.lo, ps.hi
 	r.Groups = slices.Clone(c16Pick(rng, c16GroupLists))
 	r.Host = c16Pick(rng, c16Hosts)
